@@ -79,10 +79,30 @@ def run_workers(prop, tier, seed, mod, extra_env=None):
         shutil.rmtree(tmp, ignore_errors=True)
 
 
+def anchored_files(prop):
+    """library files the property is anchored in (properties.jsonl), relative to the package"""
+    out = []
+    try:
+        with open(os.path.join(env.VERIF, "properties.jsonl")) as f:
+            for line in f:
+                d = json.loads(line)
+                if d.get("id") == prop:
+                    for fn in d.get("anchors", {}).get("files", []):
+                        if fn.startswith("dynetx/"):
+                            out.append(fn[len("dynetx/"):])
+    except OSError:
+        pass
+    return out
+
+
 def merge(results):
     agg = dict(cases=0, counters={}, sig_count={}, distinct=set(), samples=[], cells={}, skipped={},
-               findings=[], notes={})
+               findings=[], notes={}, reach={}, reach_shards=0)
     for r in results:
+        if r.get("reach"):
+            agg["reach_shards"] += 1
+            for f_, lines in r["reach"].items():
+                agg["reach"].setdefault(f_, set()).update(lines)
         agg["cases"] += r["cases"]
         for k in ("counters", "sig_count", "cells", "skipped"):
             for a, b in r[k].items():
@@ -155,6 +175,18 @@ def main(argv=None):
         if not agg["cells"].get(cellname):
             reasons.append("coverage cell %r never reached" % cellname)
 
+    # ---- which library lines the workload executed (observation of reach, dynmon/reach.py)
+    from . import reach as reach_
+    library_reach = reach_.summarise(os.path.join(env.REPO, "dynetx"), agg["reach"]) if agg["reach_shards"] else {}
+    anchored = anchored_files(prop)
+    for fn, d in library_reach.items():
+        if fn not in anchored:
+            d.pop("unreached", None)        # line ranges are listed for the anchored files only
+    for fn in anchored:
+        d = library_reach.get(fn)
+        if agg["reach_shards"] and d is not None and d["function_body_reached"] == 0:
+            reasons.append("no function body line of the anchored file %s was executed" % fn)
+
     wall = round(time.time() - t0, 2)
     evaluations = sum(agg["counters"].values())
     ev = dict(
@@ -176,6 +208,8 @@ def main(argv=None):
             and agg["notes"].get("exhaustive_done", len(results)) == len(results),
             known_findings_reproduced={k: agg["sig_count"].get("known:" + k, 0) for k in known_seen},
             findings_by_signature=agg["sig_count"],
+            library_reach=library_reach,
+            library_reach_shards=agg["reach_shards"],
             inconclusive_reasons=reasons,
         ),
         assumptions=list(getattr(mod, "ASSUMPTIONS", [])) + [
